@@ -1,6 +1,6 @@
 from .common import TRUSTED_BASE_COMMON
 THEOREMS = [
-    "C06_market_constants", "C06_market_inv_reachable", "C06_market_inv_step",
+    "C06_market_constants", "C06_market_inv_reachable", "C06_market_inv_step", "C06_rejected_call_changes_nothing",
     "C06_locked_equals_obligations", "C06_locked_le_escrow", "C06_totals_exact",
     "C06_states_subset_proposals", "C06_market_solvent", "C06_withdraw_exact", "C06_withdraw_auth",
 ]
